@@ -278,8 +278,21 @@ def install(interp):
     overrides = {}
     for (fq, pname), tys in PARAM_TYPES.items():
         if fq not in prog.functions:
-            raise AnalysisError("model: function of PARAM_TYPES vanished: %s" % fq)
+            short = fq.rsplit(".", 1)[-1]
+            if short.startswith("_") and not short.endswith("__"):
+                # a private helper is not an anchor: it may have been moved (mixin, module level) or merged away; the
+                # hint follows it to a function of the same name in the same module, otherwise it is simply dropped
+                mod = next((m for m in sorted(prog.modules, key=len, reverse=True) if fq.startswith(m + ".")), None)
+                cands = [q for q, f in prog.functions.items() if f.module == mod and f.name == short and pname in f.params]
+                if len(cands) == 1:
+                    fq = cands[0]
+                else:
+                    continue
+            else:
+                raise AnalysisError("model: function of PARAM_TYPES vanished: %s" % fq)
         if pname not in prog.functions[fq].params:
+            if fq.rsplit(".", 1)[-1].startswith("_") and not fq.endswith("__"):
+                continue
             raise AnalysisError("model: parameter %s of %s vanished" % (pname, fq))
         names = set()
         for ty in tys:
